@@ -231,8 +231,9 @@ def schema():
     global _SCHEMA
     if _SCHEMA is None:
         cs = parse_schema(open(SCHEMA_FILE).read(), 'block.tlb')
-        if os.path.exists(SUPPLEMENT):
-            cs += parse_schema(open(SUPPLEMENT).read(), 'supplement')
+        for f in (SUPPLEMENT, SUPPLEMENT.replace('block_supplement', 'custom_supplement')):
+            if os.path.exists(f):
+                cs += parse_schema(open(f).read(), os.path.basename(f))
         _SCHEMA = Schema(cs)
     return _SCHEMA
 
@@ -481,7 +482,16 @@ class Gen:
             cur.bits = cur.bits + E.uint(L, lbits)
             if L == 0:
                 return 0
-            return self._uint(path, 8 * L, cur) if name == 'VarUInteger' else self._int(path, 8 * L, cur)
+            v = self._uint(path, 8 * L, cur) if name == 'VarUInteger' else self._int(path, 8 * L, cur)
+            if getattr(self.pol, 'minimal', False):
+                # canonical (minimal) byte length, as serialisers emit it
+                if name == 'VarUInteger':
+                    w.assume(v >= (1 << (8 * (L - 1))))
+                elif L > 1:
+                    w.assume(w.Or(v >= (1 << (8 * (L - 1) - 1)), v < -(1 << (8 * (L - 1) - 1))))
+                else:
+                    w.assume(w.Or(v > 0, v < 0))
+            return v
         if name in ('Grams', 'Coins'):
             return self.type(('app', 'VarUInteger', [('nat', 16)]), env, path, cur, depth)
         if name in ('MsgAddressInt', 'MsgAddressExt', 'MsgAddress'):
@@ -828,6 +838,12 @@ class _DryWorld:
 
     def assume(self, c):
         pass
+
+    def Or(self, *a):
+        return True
+
+    def And(self, *a):
+        return True
 
 
 def own_cases(typename, args=(), cap=40, seed=1, addr_var=False):
